@@ -26,12 +26,12 @@ for p in props:
         na.append({'property_id': pid, 'reason': NOT_APPLICABLE.get(pid, 'check not built yet (work in progress)')})
 man = {
     'version': 1,
-    'setup_cmd': '/venv/bin/python tools/gen_tables.py && cd lean && lake build',
+    'setup_cmd': '/venv/bin/python tools/gen_tables.py && /venv/bin/python tools/py2lean.py && cd lean && lake build',
     'hooks': {'guard': 'A5_PY_VERIF', 'enable': 'no in-source hooks: the harness wraps/proxies objects of the imported package at run time',
               'baseline_off_cmd': 'cd /repo && /venv/bin/python -m pytest -ra -q -p no:cacheprovider --timeout=900 --continue-on-collection-errors',
               'source_commits': [], 'add_only': True},
     'engines': [{'name': 'lean4-model', 'path': 'lean/', 'serves_properties': [c['property_id'] for c in checks],
-                 'kind_free_text': 'hand-written Lean 4 model of a5-py (A5/Model), property theorems (A5/Props), tables regenerated from /repo each run (tools/gen_tables.py), model/implementation correspondence over a line protocol (lean/Main.lean vs harness/py_driver.py), failing-input search on the real code (harness/props/*.py)'}],
+                 'kind_free_text': 'hand-written Lean 4 model of a5-py (A5/Model), property theorems (A5/Props), tables regenerated from /repo each run (tools/gen_tables.py), the integer core translated from the source each run (tools/py2lean.py -> A5/Gen/Src.lean) with kernel-checked bridge theorems to the model (A5/Proofs/SrcBridge*, A5/Props/SrcTie), model/implementation correspondence over a line protocol (lean/Main.lean, lean/SrcMain.lean vs harness/py_driver.py), failing-input search on the real code (harness/props/*.py)'}],
     'checks': checks,
     'notes': 'Every check: regenerate tables from /repo -> lake build of the property cone -> axiom audit -> correspondence -> failing-input search. Genuine defects: known_findings.json.',
     'not_applicable': na,
